@@ -65,6 +65,11 @@ CHECKS = {
          "Key sets aimed at page/chunk capacity multiples +-1 (exhaustive grids: key size 1..16 x offset width 4/5/6 x {cap-1,cap,cap+1,2cap,2cap+1,3cap+1}; encoding page fills; archive-group counts around 157n; root totals 0..110 x versions; TVFS offset-width thresholds), shared 8-15 byte prefixes, all-00/all-FF keys, 1..255 encoding keys per content key; oracle = map model + linear scan + independent TVFS walk.",
          "Trusted: the map models and the shared key generator; padding sentinels (all-zero record with size 0 / espec 0) are excluded from the domain and counted.",
          "DESIGN.md §3 C03"),
+ "C14": ("pbt+enum", "exploration",
+         "exhaustive enumeration of the policy grid x every canonical outcome sequence, plus proptest sampling beyond it, executed by RetryPolicy::execute on tokio's paused clock; oracle = attempt bound, stop conditions, result identity and per-gap back-off bounds from the statement",
+         "max_attempts 0..=3 (0..=4 thorough) x initial/max back-off grid (incl. initial > max, zero, u64::MAX s) x multipliers {0,0.5,1,2,10,1e30,NaN,-1} x jitter x every canonical outcome sequence of length <= max_attempts+2 over {Ok, retryable, rate-limited with hint 0/1 s/1 h, without hint, non-retryable} is enumerated (2.2 M cases quick); sampled policies reach max_attempts 5 and off-grid values; from_env is driven with the same values as strings.",
+         "Trusted: tokio's paused clock (no wall-clock verdicts). Policies whose documented delay lies in [1e14 s, 2^63 s) are not built (tokio clamps such sleeps); jitter is judged by bounds only.",
+         "DESIGN.md §3 C14"),
 }
 
 NOT_YET = "check not built yet in this session (work in progress; see DESIGN.md §3 for the planned generator and oracle)"
